@@ -90,6 +90,9 @@ func AmountFromString(val string) (Amount, error) {
 			return a, fmt.Errorf("invalid decimal number '%v', %w", val, err)
 		}
 		e = uint32(len(x[1]))
+		if e > 18 || v < 0 || v2 < 0 || v > (math.MaxInt64-v2)/intPow(10, e) {
+			return a, fmt.Errorf("amount out of range '%v'", val)
+		}
 		v = v * intPow(10, e)
 		v += v2
 	}
